@@ -593,6 +593,7 @@ def assemble(template_path, repo):
         info['kind'] = kind
         info['tags'] = [t for t in args.get('tags', '').split(',') if t]
         info['template_line'] = i + 1
+        if args.get('never_called'): info['never_called'] = True
         out_lines.append('// >>> %s %s %s::%s  [%s]' % (kind, info['file'], info['owner'], info['name'], info['status']))
         info['first_line'] = len(out_lines) + 1
         tl = text.split('\n')
